@@ -85,6 +85,16 @@ for pid in ids:
     if (src / "benign.diff").exists():
         shutil.copy(src / "benign.diff", dst / (TAG + "benign.diff"))
     meta = json.loads((src / "meta.json").read_text()) if (src / "meta.json").exists() else {}
+    old = {}
+    if (dst / (TAG + "meta.json")).exists():
+        try:
+            old = json.loads((dst / (TAG + "meta.json")).read_text())
+        except Exception:
+            old = {}
+    oc_ = old.get("confirmation", {})
+    if "suite_ok" not in res and "suite_ok" in oc_:  # keep the suite result of the first evaluation
+        res["suite_ok"], res["suite"] = oc_["suite_ok"], oc_.get("suite")
+    meta["first_evaluation"] = old.get("first_evaluation") or ({"detected": old.get("detected"), "clauses": oc_.get("clauses")} if old else None)
     meta["confirmation"] = res
     meta["detected"] = "yes" if res.get("detected") else ("exit2" if res.get("check_rc") == 2 else "no")
     (dst / (TAG + "meta.json")).write_text(json.dumps(meta, indent=1))
